@@ -36,6 +36,10 @@ structure BCfg where
   /-- barrier selector: `(i in current_batch_indices) or (i in excluded_minima)` → skip -/
   barrierSkipsCurrent : Bool := true
   barrierSkipsExcluded : Bool := true
+  /-- the `e_range` handed to the scan by barrier_batch_selector:
+      `max(np.max(energies), max_ts_energy) - np.min(energies)` (true, repaired code) or
+      `np.max(energies) - np.min(energies)` (false, original code) -/
+  scanRangeIncludesTs : Bool := true
   /-- dispatch strings of generate_batch in source order: Lowest, Monotonic, Barrier, Topographical -/
   schemes : List String := ["Lowest", "Monotonic", "Barrier", "Topographical"]
   deriving DecidableEq, Repr, Inhabited
@@ -116,9 +120,15 @@ def maxTs (cfg : BCfg) (es : List (WEdge α)) : α :=
 /-- `np.max(energies) - np.min(energies)` -/
 def eRange (net : Net α) : α := maxOf net.energy net.n - minOf net.energy net.n
 
+/-- the `e_range` of barrier_batch_selector (Python's `max(a, b)` is `b if b > a else a`) -/
+def scanRange (cfg : BCfg) (net : Net α) : α :=
+  let a := maxOf net.energy net.n
+  let b := maxTs cfg net.edges
+  (if cfg.scanRangeIncludesTs then (if a < b then b else a) else a) - minOf net.energy net.n
+
 /-- `sufficient_barrier(ktn, i, j, max_ts_energy, e_range, cutoff)` -/
 def suffNet (g : Cfg) (cfg : BCfg) (net : Net α) (cutoff : α) (i j : Nat) : Bool :=
-  sufficient cfg (height g net.n net.edges i j (maxTs cfg net.edges) (eRange net))
+  sufficient cfg (height g net.n net.edges i j (maxTs cfg net.edges) (scanRange cfg net))
     (net.energy i) (net.energy j) cutoff
 
 /-- `barrier_batch_selector(ktn, excl, cutoff, current)`: returns (`batch_indices`, the mutated
